@@ -50,6 +50,7 @@ func (e *Engine) verifyFunc(fn *ssa.Function, fs *FuncSpec) (c *vctx) {
 		a.freeVars = append(a.freeVars, v)
 		_ = i
 	}
+	st.epochBound = st.alloc
 	a.entry = st.clone()
 	env := a.entryEnv(st)
 	lets := map[string]Val{}
@@ -61,6 +62,10 @@ func (e *Engine) verifyFunc(fn *ssa.Function, fs *FuncSpec) (c *vctx) {
 		}
 		env.vars[l.Name] = v
 		lets[l.Name] = v
+		if a.lets == nil {
+			a.lets = map[string]Val{}
+		}
+		a.lets[l.Name] = v
 	}
 	for _, cl := range fs.Requires {
 		t, err := env.evalBool(cl.E)
@@ -133,6 +138,7 @@ func (e *Engine) verifyLemma(lem *LemmaSpec) (c *vctx) {
 	st := &State{locals: map[any]Val{}, heap: map[string]Term{}, epoch: "0"}
 	st.alloc = c.log.declConst("alloc@0", SInt)
 	c.log.assert(app(SBool, ">=", st.alloc, intLit(1)))
+	st.epochBound = st.alloc
 	a.entry = st.clone()
 	env := e.newEnv(a, st)
 	env.pkg = e.spkg[lem.Pkg]
@@ -258,6 +264,9 @@ func (e *Engine) frameObligations(a *act, fr *frameInfo, exit *State, reach Term
 		if h0.S == h1.S {
 			continue
 		}
-		a.obligation("frame", strings.TrimPrefix(h, "H_"), a.fn.Pos(), reach, frameFormula(h0, h1, a.entry.alloc, fr.targets[h]))
+		// frame obligations exist only for the heap families the current body writes, so their names follow the
+		// code, not the contract: they are never named in the ledger, but a failing one is always reported (a write
+		// outside the contract's modifies clause is a violation of that clause)
+		a.obligationX("frame", strings.TrimPrefix(h, "H_"), a.fn.Pos(), reach, frameFormula(h0, h1, a.entry.alloc, fr.targets[h]), true)
 	}
 }
